@@ -24,7 +24,7 @@ CLAIMED = {
         "error, not silently rounded: defect F12, fixed); the Bin whose address a getter/setter requests carries every index of the "
         "piece asked for (segment, view or axial position, TOF index) in its own slot, and a getter builds the piece it returns from "
         "the same indices; every whole-data operation of ProjData (fill, sum, extrema, norms, xapyb/sapyb, arithmetic) requests, inside its "
-        "loop over the segments, the segment of the TOF bin of an enclosing loop over all TOF bins; in the projection-data header the scale factor and the bed positions are written with max_digits10 digits (defect F35, fixed), values of list-valued keys are in the reader's list and information-losing formatting changes of the header stream are put back; a segment number passed to a public get_* member of the two backing stores is tested against the segment range (directly or by a helper whose every exit has made the test) before it indexes the per-segment tables (F66, fixed); every exam-information key or helper of the image header writer also appears in the projection-data header writer (F67, fixed). Value round trips, byte order, number-type conversion and the other header values are NOT decided.",
+        "loop over the segments, the segment of the TOF bin of an enclosing loop over all TOF bins; in the projection-data header the scale factor and the bed positions are written with max_digits10 digits (defect F35, fixed), values of list-valued keys are in the reader's list and information-losing formatting changes of the header stream are put back; a segment number passed to a public get_* member of the two backing stores is tested against the segment range (directly or by a helper whose every exit has made the test) before it indexes the per-segment tables (F66, fixed); every exam-information key or helper of the image header writer also appears in the projection-data header writer (F67, fixed); every path through the positioning helpers checked_seekg/checked_seekp passes the seek (an independent reader drops its read-ahead on every access). Value round trips, byte order, number-type conversion and the other header values are NOT decided.",
         technique="static analysis: must-facts dataflow over clang CFG (bounds), symbolic layout algebra on the address expression, "
         "must-pass-through (flush), resolved-callee provenance",
     ),
@@ -189,7 +189,9 @@ CLAIMED = {
         "residue class of the basic view. For the cached list-mode objective: the per-thread images the call-back accumulates into are all added to the output image after the event loop in "
         "the as-built and the OpenMP configuration (F24, fixed); the additive term cached for an event is taken from the piece whose segment AND TOF bin equal the event's (F25, fixed); a batch that "
         "continues in the stream without rewinding restores the clock from saved state; the value added to the sinogram is known to be positive at the store (F68, fixed) and every return path of get_bin_from_event has decoded the event into the caller's bin or marked it rejected (F69, fixed); every public setter of something LmToProjData::set_up() derives state from clears the set-up flag and derived flags are assigned on every path of set_up() (F70, fixed); every set-up path of the list-mode objective that decides to cache re-makes the event cache, or keeps it only under flags that every setter of a cache input clears; the quotient the list-mode gradient back-projects is evaluated only where its own singularity test failed (F78, fixed); the event cut-off of the list-mode objective counts the events of all batches (F79, fixed). NOT decided: event->detector decoding per scanner, time-frame arithmetic, frame additivity, "
-        "list-mode gradient = sinogram gradient (numerical).",
+        "list-mode gradient = sinogram gradient (numerical). Also decided (F91-F95, fixed): every path from an update of the clock to the histogramming of an event tests the clock against the frame end, "
+        "in the event loop the clock follows every time record, later passes restart with the clock kept at the saved position, set_up() refuses non-positive batch sizes, "
+        "TimeFrameDefinitions::operator== compares the number of frames, ListTime::set_time_in_secs inverts get_time_in_secs.",
         technique="static analysis: normalised loop descriptors, interval entailment from must-facts with a callee effect summary, "
         "must-pass-through pairing",
     ),
@@ -241,7 +243,9 @@ CLAIMED = {
         "the header writers leave the formatting state of the header stream as they found it (sticky manipulators / precision()/flags() put back on every path); "
         "every literal value written for a key with a value list is in the reader's list, and where enumerators are mapped to strings by a switch, enumerator e is written as list entry e (F27, fixed); "
         "per exam-info attribute the writer's bound on the getter implies the reader's bound on what it hands to the setter (F29, fixed); scale factors, calibration factor, frame times, voxel sizes and first pixel offsets are written with "
-        "at least max_digits10 digits of their type (F30, F75, fixed). NOT "
+        "at least max_digits10 digits of their type (F30, F75, fixed), and so are energy window limits, half life and branching ratio (F90, fixed); "
+        "`quantification units` is written only when the scale factors are exactly equal, as the reader demands; every value find_scale_factor stores is non-negative (sign analysis; F88, fixed) and floating-point output types "
+        "do not get the full-range quotient (F86, fixed); convert_range rounds value/factor into the output type, not through a fixed-width int (F87, fixed); no write_data result is dropped by the image writers (F89, fixed). NOT "
         "decided: value preservation/quantisation bounds numerically, dynamic/parametric "
         "container bookkeeping.",
         technique="static analysis: writer/reader key-table agreement, must-pass-through, switch exhaustiveness and sibling agreement, "
